@@ -13,6 +13,9 @@
 //   fixed <hist> <n> p.. r..                      = x
 //   cra.<dom> <hist> M d A e                      = res resNoReduce
 //   pcrt.<dom> <hist> p <n> a.. r..               = k c_0..c_{k-1} t_0..t_{n-1}
+//   prt.<dom> <hist> p <n> a.. <k> c..            = t_0..t_{n-1} k' c'_0..          (RingToRns of a polynomial, then RnsToRing)
+//   mirns <prog> <n> p.. <nb> b.. r.. a           = as irns      (program over several objects, see run_prog)
+//   mrns.<dom> <prog> <n> p.. <nb> b.. r.. a      = as rns.<dom>
 // <hist> is a string of operation letters (see run_* below) describing how the system object was obtained.
 // With argv = "<tier> <seed>" the harness generates its own input lines; with lines on stdin it runs exactly those.
 #include "proto.h"
@@ -166,12 +169,125 @@ static std::string run_fixed(Cur& c) {
         case 'D': cur.reset(new Sys(A)); break;
         case 'q': touch(*cur); break;
         case 'A': { Sys* f = new Sys(); *f = *cur; cur.reset(f); break; }
+        case 'C': { Sys* n2 = new Sys(*cur); cur.reset(n2); break; }
+        case 'K': { Sys n2(*cur); touch(n2); break; }
         default: return "BADHIST";
         }
     }
     if (!cur) return "BADHIST";
     Res o;
     Integer x; cur->RnsToRing(x, R); o.Z(x);
+    return o.s;
+}
+
+// ------------------------------------------------------------------------------------------ programs over several objects
+// <prog> = operations separated by ',' acting on slots 0..3 (X = A or B names a moduli list of the line):
+//   nSX  slot S := new system on X          tSX  same through the template constructor (IntRNSsystem)
+//   dS   slot S := default-constructed      cST  slot S := copy-constructed from slot T
+//   aST  slot S = slot T (S == T: self-assignment)      sSX  slot S .setPrimes(X)   (RNSsystem)
+//   qS   RingToRns(a) then RnsToRing on S   kS   Reciprocals()    mS  product()  (IntRNSsystem)
+//   fS   final query on slot S (last operation)
+static std::vector<std::string> split_prog(const std::string& p) {
+    std::vector<std::string> v; std::string cur;
+    for (char ch : p) { if (ch == ',') { v.push_back(cur); cur.clear(); } else cur += ch; }
+    if (!cur.empty()) v.push_back(cur);
+    return v;
+}
+
+static std::string run_mirns(Cur& c) {
+    typedef IntRNSsystem<std::vector, std::allocator> Sys;
+    std::string prog = c.str();
+    size_t n = c.N(); IVec A = c.vec(n);
+    size_t nb = c.N(); IVec B = c.vec(nb);
+    IVec R = c.vec(n); Integer a = c.Z();
+    std::unique_ptr<Sys> slot[4];
+    Sys* fin = nullptr;
+    auto touch = [&](Sys& s) { IVec e; s.RingToRns(e, a); Integer x; s.RnsToRing(x, e); };
+    for (auto& op : split_prog(prog)) {
+        if (op.size() < 2) return "BADPROG";
+        size_t S = (size_t)(op[1] - '0'); if (S > 3) return "BADPROG";
+        size_t T = op.size() > 2 && op[2] >= '0' && op[2] <= '3' ? (size_t)(op[2] - '0') : 9;
+        const IVec& X = (op.size() > 2 && op[2] == 'B') ? B : A;
+        switch (op[0]) {
+        case 'n': slot[S].reset(new Sys(X)); break;
+        case 't': {
+            bool fits = true;
+            for (auto& p : X) if (p < 0 || p.bitsize() > 64) fits = false;
+            if (fits) { std::vector<uint64_t> w; for (auto& p : X) w.push_back((uint64_t)p); slot[S].reset(new Sys(w)); }
+            else slot[S].reset(new Sys(X));
+            break; }
+        case 'd': slot[S].reset(new Sys()); break;
+        case 'c': { if (T > 3 || !slot[T] || S == T) return "BADPROG"; Sys* n2 = new Sys(*slot[T]); slot[S].reset(n2); break; }
+        case 'a': { if (T > 3 || !slot[T] || !slot[S]) return "BADPROG"; *slot[S] = *slot[T]; break; }
+        case 'q': if (!slot[S]) return "BADPROG"; touch(*slot[S]); break;
+        case 'k': if (!slot[S]) return "BADPROG"; (void)slot[S]->Reciprocals(); break;
+        case 'm': if (!slot[S]) return "BADPROG"; (void)slot[S]->product(); break;
+        case 'f': fin = slot[S].get(); break;
+        default: return "BADPROG";
+        }
+    }
+    if (!fin) return "BADPROG";
+    if ((size_t)fin->NumOfPrimes() != n) return "BADSTATE";     // the object does not hold the moduli the program gave it
+    Res o;
+    Integer x; fin->RnsToRing(x, R); o.Z(x);
+    IVec m; fin->RnsToMixedRadix(m, R);
+    for (size_t i = 0; i < n; ++i) o.Z(m[i]);
+    const IVec& ck = fin->Reciprocals();
+    for (size_t i = 1; i < n; ++i) o.Z(ck[i]);
+    IVec t; fin->RingToRns(t, a);
+    for (size_t i = 0; i < n; ++i) o.Z(t[i]);
+    o.Z(fin->product());
+    Integer y; fin->RnsToRing(y, t); o.Z(y);
+    return o.s;
+}
+
+template <class Dom>
+static std::string run_mrns(Cur& c) {
+    typedef RNSsystem<Integer, Dom> Sys;
+    typedef typename Sys::domains Doms;
+    typedef typename Sys::array Elts;
+    std::string prog = c.str();
+    size_t n = c.N(); IVec A = c.vec(n);
+    size_t nb = c.N(); IVec B = c.vec(nb);
+    IVec R = c.vec(n); Integer a = c.Z();
+    Doms dA(n), dB(nb);
+    for (size_t i = 0; i < n; ++i) dA[i] = Dom(A[i]);
+    for (size_t i = 0; i < nb; ++i) dB[i] = Dom(B[i]);
+    std::unique_ptr<Sys> slot[4];
+    Sys* fin = nullptr;
+    auto touch = [&](Sys& s) { Elts e; s.RingToRns(e, a); Integer x; s.RnsToRing(x, e); };
+    for (auto& op : split_prog(prog)) {
+        if (op.size() < 2) return "BADPROG";
+        size_t S = (size_t)(op[1] - '0'); if (S > 3) return "BADPROG";
+        size_t T = op.size() > 2 && op[2] >= '0' && op[2] <= '3' ? (size_t)(op[2] - '0') : 9;
+        const Doms& X = (op.size() > 2 && op[2] == 'B') ? dB : dA;
+        switch (op[0]) {
+        case 'n': slot[S].reset(new Sys(X)); break;
+        case 'd': slot[S].reset(new Sys()); break;
+        case 'c': { if (T > 3 || !slot[T] || S == T) return "BADPROG"; Sys* n2 = new Sys(*slot[T]); slot[S].reset(n2); break; }
+        case 'a': { if (T > 3 || !slot[T] || !slot[S]) return "BADPROG"; *slot[S] = *slot[T]; break; }
+        case 's': if (!slot[S]) return "BADPROG"; slot[S]->setPrimes(X); break;
+        case 'q': if (!slot[S]) return "BADPROG"; touch(*slot[S]); break;
+        case 'k': if (!slot[S]) return "BADPROG"; (void)slot[S]->Reciprocals(); break;
+        case 'f': fin = slot[S].get(); break;
+        default: return "BADPROG";
+        }
+    }
+    if (!fin) return "BADPROG";
+    if (fin->size() != n) return "BADSTATE";                    // the object does not hold the moduli the program gave it
+    Sys* cur = fin;
+    Res o;
+    Elts res(n);
+    for (size_t i = 0; i < n; ++i) cur->ith(i).init(res[i], R[i]);
+    Integer x; cur->RnsToRing(x, res); o.Z(x);
+    Elts m; cur->RnsToMixedRadix(m, res);
+    Integer z;
+    for (size_t i = 0; i < n; ++i) o.Z(cur->ith(i).convert(z, m[i]));
+    const Elts& ck = cur->Reciprocals();
+    for (size_t i = 1; i < n; ++i) o.Z(cur->ith(i).convert(z, ck[i]));
+    Elts t; cur->RingToRns(t, a);
+    for (size_t i = 0; i < n; ++i) o.Z(cur->ith(i).convert(z, t[i]));
+    Integer y; cur->RnsToRing(y, t); o.Z(y);
     return o.s;
 }
 
@@ -242,6 +358,46 @@ static std::string run_pcrt(Cur& c) {
     return o.s;
 }
 
+// Poly1CRT round trip starting from a polynomial: RingToRns, then RnsToRing
+template <class Dom>
+static std::string run_prt(Cur& c) {
+    typedef Poly1CRT<Dom> Sys;
+    typedef typename Sys::array_T VScal;
+    typedef typename Sys::Element Poly;
+    std::string hist = c.str();
+    Integer p = c.Z();
+    size_t n = c.N(); IVec A = c.vec(n);
+    size_t k = c.N(); IVec Cf = c.vec(k);
+    Dom F(p);
+    VScal pts(n);
+    for (size_t i = 0; i < n; ++i) F.init(pts[i], A[i]);
+    Poly P(k);
+    for (size_t i = 0; i < k; ++i) F.init(P[i], Cf[i]);
+    std::unique_ptr<Sys> cur;
+    auto touch = [&](Sys& s) { VScal t; s.RingToRns(t, P); Poly Q; s.RnsToRing(Q, t); };
+    for (char op : hist) {
+        switch (op) {
+        case 'D': cur.reset(new Sys(F, pts, "X")); break;
+        case 'q': touch(*cur); break;
+        case 'k': (void)cur->Reciprocals(); break;
+        case 'C': { Sys* n2 = new Sys(*cur); cur.reset(n2); break; }
+        case 'K': { Sys n2(*cur); touch(n2); break; }
+        default: return "BADHIST";
+        }
+    }
+    if (!cur) return "BADHIST";
+    Res o;
+    Integer z;
+    VScal t; cur->RingToRns(t, P);
+    for (size_t i = 0; i < n; ++i) o.Z(F.convert(z, t[i]));
+    Poly Q; cur->RnsToRing(Q, t);
+    size_t kk = Q.size();
+    while (kk > 0 && F.isZero(Q[kk - 1])) --kk;
+    o.N(kk);
+    for (size_t i = 0; i < kk; ++i) o.Z(F.convert(z, Q[i]));
+    return o.s;
+}
+
 // ------------------------------------------------------------------------------------------ domain table
 struct DomInfo {
     std::string name;
@@ -258,6 +414,8 @@ static void reg(const char* name, bool primeOnly, int bitsCap = 0) {
     TABLE[std::string("rns.") + name] = run_rns<Dom>;
     TABLE[std::string("cra.") + name] = run_cra<Dom>;
     TABLE[std::string("pcrt.") + name] = run_pcrt<Dom>;
+    TABLE[std::string("prt.") + name] = run_prt<Dom>;
+    TABLE[std::string("mrns.") + name] = run_mrns<Dom>;
     DomInfo d;
     d.name = name;
     d.maxc = Integer(Dom::maxCardinality());
@@ -269,6 +427,7 @@ static void reg(const char* name, bool primeOnly, int bitsCap = 0) {
 static void init_table() {
     TABLE["irns"] = run_irns;
     TABLE["fixed"] = run_fixed;
+    TABLE["mirns"] = run_mirns;
     reg<Modular<int32_t>>("mi32", false);
     reg<Modular<int64_t>>("mi64", false);
     reg<Modular<uint32_t>>("mu32", false);
@@ -403,6 +562,41 @@ struct Gen {
         return h;
     }
 
+    // a random valid program over 4 slots; tags: 0 = no object, 1 = empty moduli, 2 = moduli A, 3 = moduli B
+    std::string randomProgram(bool isInt, size_t len) {
+        int tag[4] = {0, 0, 0, 0};
+        std::string prog;
+        auto add = [&](const std::string& op) { if (!prog.empty()) prog += ','; prog += op; };
+        auto D = [](size_t v) { return std::string(1, (char)('0' + v)); };
+        for (size_t i = 0; i < len; ++i) {
+            size_t S = rng.below(4), T = rng.below(4);
+            switch (rng.below(isInt ? 9 : 9)) {
+            case 0: { bool b = rng.below(2); add((isInt && rng.below(4) == 0 ? "t" : "n") + D(S) + (b ? "B" : "A")); tag[S] = b ? 3 : 2; break; }
+            case 1: if (rng.below(3) == 0) { add("d" + D(S)); tag[S] = 1; } break;
+            case 2: case 3: if (tag[T] && S != T) { add("c" + D(S) + D(T)); tag[S] = tag[T]; } break;
+            case 4: case 5: if (tag[T] && tag[S]) { add("a" + D(S) + D(T)); tag[S] = tag[T]; } break;
+            case 6: if (tag[S] >= 2) add("q" + D(S)); break;
+            case 7: if (tag[S] >= 2) add((isInt && rng.below(2) ? "m" : "k") + D(S)); break;
+            default:
+                if (!isInt && tag[S]) { bool b = rng.below(2); add("s" + D(S) + (b ? "B" : "A")); tag[S] = b ? 3 : 2; }
+                else if (isInt && tag[S] >= 2) add("q" + D(S));
+                break;
+            }
+        }
+        // make some slot hold A at the end, preferably through a copy / assignment chain
+        size_t f = 4;
+        for (size_t s = 0; s < 4; ++s) if (tag[s] == 2) f = s;
+        if (f == 4) {
+            size_t S = rng.below(4);
+            if (!isInt && tag[S] && rng.below(2)) add("s" + D(S) + "A"); else add("n" + D(S) + "A");
+            tag[S] = 2; f = S;
+            size_t T = (S + 1 + rng.below(3)) % 4;
+            if (rng.below(2)) { if (tag[T]) add("a" + D(T) + D(S)); else add("c" + D(T) + D(S)); tag[T] = 2; f = T; }
+        }
+        add("f" + D(f));
+        return prog;
+    }
+
     void genSystems(const std::string& key, bool isInt, const Integer& lo, const Integer& hi, bool primeOnly, size_t maxLen, size_t budget, bool fullHist = true) {
         // the "other" primes B used by histories that start on different primes / assign over another system
         size_t made = 0;
@@ -469,7 +663,7 @@ struct Gen {
         // ---- IntRNSsystem: word-sized and multi-limb moduli
         {
             Integer w16(1); w16 <<= 16; Integer w32(1); w32 <<= 32; Integer w64(1); w64 <<= 64; Integer w200(1); w200 <<= 200;
-            size_t b = thorough ? 4000 : 700;
+            size_t b = thorough ? 3000 : 700;
             genSystems("irns", true, two, Integer(64), false, 12, b / 2, false);
             genSystems("irns", true, two, w16, false, maxLen, b);
             genSystems("irns", true, w32 - 1000, w32 + 1000, false, maxLen, b, false);
@@ -484,7 +678,7 @@ struct Gen {
             if (d.name == "gfq32") hi = Integer(thorough ? 4099 : 1021);   // table construction dominates the cost
             Integer lo = d.minc;
             if (d.primeOnly && lo < 3) lo = 3;
-            size_t b = thorough ? 2500 : 800;
+            size_t b = thorough ? 1800 : 800;
             if (d.name == "gfq32" || d.name == "mlog16") b = thorough ? 1200 : 700;
             size_t ml = maxLen;
             std::string key = "rns." + d.name;
@@ -547,6 +741,44 @@ struct Gen {
                 IVec R = residues(Pm, (int)rng.below(8));
                 const char* hs[] = {"D", "DC", "DqC", "DkC", "DKq", "DCqC", "DqKq"};
                 lines.push_back("pcrt." + d.name + " " + hs[rng.below(7)] + " " + hexZ(p) + " " + vp::hex_ull(n) + join(A) + join(R));
+                // round trip from a polynomial: degree < n (identity expected), and a few of degree >= n (reduction)
+                size_t k = rng.below(6) == 0 ? n + rng.below(3) : rng.below(n + 1);
+                IVec Pk(k, p);
+                IVec Cf = residues(Pk, 4 + (int)rng.below(3));
+                if (k > 0 && rng.below(3) == 0) Cf[k - 1] = Integer(0);          // un-normalised input
+                lines.push_back("prt." + d.name + " " + hs[rng.below(7)] + " " + hexZ(p) + " " + vp::hex_ull(n) + join(A) + " " + vp::hex_ull(k) + join(Cf));
+            }
+            // ---- programs over several RNSsystem objects
+            {
+                size_t npg = thorough ? 600 : 150;
+                if (d.name == "gfq32" || d.name == "mlog16") npg = thorough ? 200 : 60;
+                for (size_t i = 0; i < npg; ++i) {
+                    size_t n = 1 + rng.below(i % 7 == 0 ? 12 : 5);
+                    IVec A = moduli(n, lo, hi, d.primeOnly, (int)rng.below(5));
+                    IVec B = moduli(1 + rng.below(6), lo, hi, d.primeOnly, 3);
+                    if (A.size() != n || B.empty()) continue;
+                    order(A, (int)rng.below(3));
+                    IVec R = residues(A, (int)rng.below(9));
+                    sysLine("mrns." + d.name, randomProgram(false, 2 + rng.below(i % 5 == 0 ? 20 : 9)), A, B, R, someInt(A, (int)rng.below(10)));
+                }
+            }
+        }
+        // ---- programs over several IntRNSsystem objects
+        {
+            Integer w64(1); w64 <<= 64; Integer w200(1); w200 <<= 200;
+            size_t npg = thorough ? 3000 : 700;
+            for (size_t i = 0; i < npg; ++i) {
+                size_t n = 1 + rng.below(i % 7 == 0 ? 14 : 5);
+                Integer w16(1); w16 <<= 16;
+                Integer lo = two, hi = w16;
+                switch (rng.below(4)) { case 0: hi = Integer(64); break; case 1: lo = w64 - 500; hi = w64 + 500; break; case 2: hi = w200; break; default: break; }
+                if (hi == Integer(64) && n > 8) n = 8;
+                IVec A = moduli(n, lo, hi, false, (int)rng.below(5));
+                IVec B = moduli(1 + rng.below(6), lo, hi, false, 3);
+                if (A.size() != n || B.empty()) continue;
+                order(A, (int)rng.below(3));
+                IVec R = residues(A, (int)rng.below(9));
+                sysLine("mirns", randomProgram(true, 2 + rng.below(i % 5 == 0 ? 24 : 9)), A, B, R, someInt(A, (int)rng.below(10)));
             }
         }
         // ---- RNSsystemFixed<Integer>
@@ -561,8 +793,8 @@ struct Gen {
                 if (A.size() != n) continue;
                 order(A, (int)rng.below(3));
                 IVec R = residues(A, (int)rng.below(8));
-                const char* hs[] = {"D", "Dq", "DA", "DqA", "DAq"};
-                lines.push_back(std::string("fixed ") + hs[rng.below(5)] + " " + vp::hex_ull(n) + join(A) + join(R));
+                const char* hs[] = {"D", "Dq", "DA", "DqA", "DAq", "DC", "DqC", "DCq", "DKq", "DCA", "DqKCq"};
+                lines.push_back(std::string("fixed ") + hs[rng.below(11)] + " " + vp::hex_ull(n) + join(A) + join(R));
             }
         }
     }
